@@ -457,6 +457,127 @@ pub fn run(run: &Run) {
         }
     });
 
+    // ---- wide schemes: the answer may not depend on how many fields the scheme has or on
+    // the index of the queried field (63/64/65, 127/128/129, 255/256/257 ... are where
+    // per-field bitmaps and small-index fast paths end)
+    const WIDTHS: [usize; 16] = [1, 2, 31, 32, 33, 63, 64, 65, 66, 127, 128, 129, 200, 256, 257, 600];
+    let wide: Vec<(wirefilter::Scheme, usize)> = WIDTHS
+        .iter()
+        .map(|&w| {
+            let mut b = wirefilter::SchemeBuilder::new();
+            for k in 0..w {
+                let t = match k % 4 {
+                    0 => wirefilter::Type::Int,
+                    1 => wirefilter::Type::Bytes,
+                    2 => wirefilter::Type::Bool,
+                    _ => wirefilter::Type::Array(wirefilter::Type::Int.into()),
+                };
+                if k % 3 == 0 {
+                    b.add_optional_field(format!("w.f{}", k), t).expect("wide scheme field");
+                } else {
+                    b.add_field(format!("w.f{}", k), t).expect("wide scheme field");
+                }
+            }
+            b.add_list(wirefilter::Type::Int, wirefilter::AlwaysList {}).expect("wide scheme list");
+            b.add_list(wirefilter::Type::Bytes, wirefilter::NeverList {}).expect("wide scheme list");
+            (b.build(), w)
+        })
+        .collect();
+    let n = run.opts.size(2_400, 80_000);
+    run.parallel("wide-schemes", n, |i, l| {
+        let mut r = Rng::derive(seed, "c12-wide", i);
+        let (scheme, w) = &wide[(i as usize) % wide.len()];
+        let w = *w;
+        // 1..5 distinct fields, biased to the last ones and to the bitmap boundaries
+        let mut picks: Vec<usize> = Vec::new();
+        for _ in 0..1 + r.below(5) {
+            let k = match r.below(6) {
+                0 => w - 1,
+                1 => w.saturating_sub(2),
+                2 => [63usize, 64, 65, 127, 128, 129, 255, 256][r.below(8)].min(w - 1),
+                3 => 0,
+                _ => r.below(w),
+            };
+            if !picks.contains(&k) {
+                picks.push(k);
+            }
+        }
+        let mut used = BTreeSet::new();
+        let mut used_list = BTreeSet::new();
+        let mut atoms: Vec<String> = Vec::new();
+        for &k in &picks {
+            let name = format!("w.f{}", k);
+            used.insert(k);
+            let in_list = r.chance(1, 3);
+            atoms.push(match k % 4 {
+                0 if in_list => {
+                    used_list.insert(k);
+                    format!("{} in $lst.a", name)
+                }
+                0 => [format!("{} == {}", name, k), format!("{} in {{1 2..5}}", name), format!("{} & 3", name)][r.below(3)].clone(),
+                1 if in_list => {
+                    used_list.insert(k);
+                    format!("{} in $b", name)
+                }
+                1 => [format!("{} contains \"a\"", name), format!("{} != \"x\"", name)][r.below(2)].clone(),
+                2 => [name.clone(), format!("not {}", name), format!("({})", name)][r.below(3)].clone(),
+                _ if in_list => {
+                    used_list.insert(k);
+                    format!("any({}[*] in $lst.a)", name)
+                }
+                _ => [format!("any({}[*] == 1)", name), format!("{}[0] > 2", name), format!("all({}[*] in {{1 2}})", name)][r.below(3)].clone(),
+            });
+        }
+        let mut text = atoms[0].clone();
+        for a in &atoms[1..] {
+            text.push_str([" and ", " or ", " xor ", " && "][r.below(4)]);
+            text.push_str(a);
+        }
+        let ast = match guard(|| scheme.parse(&text).map_err(|e| e.to_string())) {
+            Ok(Ok(a)) => a,
+            other => {
+                run.violation(
+                    "C12/generated-filter-rejected/wide",
+                    "parses",
+                    "wide-schemes",
+                    i,
+                    json!({"text": text, "fields": w, "outcome": format!("{:?}", other.map(|r| r.map(|_| ())))}),
+                );
+                return;
+            }
+        };
+        for k in 0..w {
+            l.evals += 1;
+            let name = format!("w.f{}", k);
+            let (want, want_list) = (used.contains(&k), used_list.contains(&k));
+            match guard(|| (ast.uses(&name).map_err(|_| ()), ast.uses_list(&name).map_err(|_| ()))) {
+                Ok((Ok(u), Ok(ul))) if u == want && ul == want_list => {
+                    if want && k >= 64 {
+                        l.count("wide_used_field_index_ge_64");
+                    }
+                }
+                other => run.violation(
+                    &format!("C12/wide-scheme/uses-or-uses_list-wrong/expected-{}-{}", want, want_list),
+                    "uses",
+                    "wide-schemes",
+                    i,
+                    json!({"text": text, "fields": w, "field": name, "index": k, "expected_uses": want, "expected_uses_list": want_list,
+                           "outcome": format!("{:?}", other)}),
+                ),
+            }
+        }
+        for bad in [format!("w.f{}", w), "w.f".to_string(), "w".to_string(), format!("w.f{}x", w - 1), "W.F0".to_string()] {
+            l.evals += 1;
+            if !matches!(guard(|| (ast.uses(&bad).is_err(), ast.uses_list(&bad).is_err())), Ok((true, true))) {
+                run.violation("C12/unknown-name-accepted/wide", "unknown-name-is-error", "wide-schemes", i, json!({"text": text, "name": bad}));
+            }
+        }
+        run.distinct(hash_str(&format!("{}|{}", w, text)));
+        if i % 499 == 0 {
+            run.sample("wide-schemes", 3, || json!({"fields": w, "filter": text}));
+        }
+    });
+
     let n = run.opts.size(30_000, 1_000_000);
     run.parallel("values", n, |i, l| {
         let mut r = Rng::derive(seed, "c12-v", i);
